@@ -46,6 +46,8 @@ LADDER = [10, 100, 1000, 10_000, 100_000, 1_000_000]
 RULE = (
     "one case = (shape, depth, build profile) run through the real naija binary with RLIMIT_STACK = 8 MiB; the text is "
     "passed as a file argument, and for the shapes named <shape>@stdin / <shape>@eval on standard input / as the --eval argument; "
+    "the shapes unb-<position> recurse without bound through one operand position each and can never end normally: exit 0 there means the "
+    "guard's error was lost on its way out and is a violation too (guard-error-lost); "
     "endings: ok (exit 0), guard (exit 1 with the runtime 'Stack overflow' diagnostic), diag (exit 1 with another "
     "diagnostic), crash (death by signal with a native stack overflow / SIGSEGV / SIGBUS), resource (allocation "
     "failure abort, SIGKILL), watchdog, panic. Only crash refutes. Non-trivial = the case did not end normally "
@@ -333,6 +335,51 @@ add_shape("data-push-self", "data", lambda d: (
     "make a get [0]\nmake i get 1\njasi (i small pass %d) start\n    make t get []\n    t.push(a)\n    a get t\n    i get i add 1\nend\nshout(a.len())\n" % d),
     max_depth=DATA_MAX, quick=False)
 
+
+# the same nesting built by MOVING the inner array (pop() hands it out, push() stores it again) instead of
+# copying it: whatever bounds the depth of copied data (each level costs O(depth) arena memory) does not
+# bound this route
+def _data_move(tail):
+    def gen(d):
+        return ("make outer get [[]]\nmake i get 0\njasi (i small pass %d) start\n    outer.push([])\n    outer.reverse()\n"
+                "    outer[0].push(outer.pop())\n    i get i add 1\nend\n" % d) + tail + "\n"
+    return gen
+
+
+add_shape("data-move-build", "data", _data_move("shout(outer.len())"), max_depth=DATA_MAX)
+add_shape("data-move-print", "data", _data_move("shout(outer)"), max_depth=DATA_MAX, quick=False)
+add_shape("data-move-copy", "data", _data_move("make b get outer\nshout(b.len())"), max_depth=DATA_MAX, quick=False)
+
+# --- unbounded recursion entered through every kind of operand position: the guard's error has to travel
+# --- back out through that position; the program can never end normally
+_UNBOUNDED = {
+    "or-left": "return f(n add 1) or false",
+    "or-right": "return false or f(n add 1)",
+    "and-left": "return f(n add 1) and true",
+    "and-right": "return true and f(n add 1)",
+    "not": "return not f(n add 1)",
+    "negate": "return minus f(n add 1)",
+    "add-left": "return f(n add 1) add 1",
+    "compare-left": "return f(n add 1) pass 1",
+    "equal-right": "return 1 na f(n add 1)",
+    "array-element": "return [f(n add 1)]",
+    "index-base": "return f(n add 1)[0]",
+    "index-value": "return [1][f(n add 1)]",
+    "argument": "return g(f(n add 1))",
+    "builtin-argument": "return to_string(f(n add 1))",
+    "method-receiver": "return f(n add 1).len()",
+    "method-argument": "return \"abc\".slice(f(n add 1), 2)",
+    "if-condition": "if to say (f(n add 1)) start\n        return true\n    end\n    return false",
+    "loop-condition": "jasi (f(n add 1)) start\n        return true\n    end\n    return false",
+    "declaration": "make v get f(n add 1)\n    return v",
+    "index-assignment-value": "make a get [0]\n    a[0] get f(n add 1)\n    return a",
+    "push-argument": "make a get []\n    a.push(f(n add 1))\n    return a",
+}
+for _pos, _body in _UNBOUNDED.items():
+    _quick = _pos in ("or-left", "and-left", "not", "if-condition", "argument", "method-receiver")
+    add_shape(f"unb-{_pos}", "rec",
+              (lambda body: (lambda d: "do g(x) start\n    return x\nend\ndo f(n) start\n    " + body + "\nend\nshout(f(0))\nshout(\"done\")\n"))(_body),
+              max_depth=10, quick=_quick, never_ok=True)
 
 # --- a stretch of depth d that evaluates no expression (so it is never probed), entered at every level of a
 # --- recursion that runs until the guard fires: the stretch starts anywhere below the 4 MiB budget -------
@@ -802,6 +849,15 @@ def run(tier, seed):
                                "phase_probe": pair.phase_probe, "source_bytes": r["source_bytes"]},
                     "replay": {"module": "vlib.p_c08", "shape": sid, "depth": d, "profile": pair.profile,
                                "how": f"python3 -m vlib.p_c08 {sid} {d} > /tmp/x.ns; ulimit -s 8192; " + {"stdin": "naija - < /tmp/x.ns", "eval": "naija --eval \"$(cat /tmp/x.ns)\""}.get(pair.sh.get("delivery", "file"), "naija /tmp/x.ns")},
+                })
+            elif r["ending"] == "ok" and pair.sh.get("never_ok") and pair.sh["id"].startswith("unb-"):
+                # unbounded recursion cannot complete: the guard's error was lost on its way out
+                sig = f"guard-error-lost|{sid}|{pair.profile}"
+                res.failures.append({
+                    "idx": idx, "sig": sig, "build": "cli-" + pair.profile,
+                    "detail": {"shape": sid, "depth": d, "profile": pair.profile, "ending": "the program ended normally (exit 0)"},
+                    "replay": {"module": "vlib.p_c08", "shape": sid, "depth": d, "profile": pair.profile,
+                               "how": f"python3 -m vlib.p_c08 {sid} {d} > /tmp/x.ns; ulimit -s 8192; naija /tmp/x.ns"},
                 })
             elif r["ending"] in ("watchdog", "resource", "panic"):
                 res.inconclusive.append({"idx": idx, "why": r["ending"] + (": " + r["note"] if r["note"] else ""),
